@@ -646,11 +646,15 @@ def finish(prop, tier, seed, meta, cases, results, wall, timeout_ms, jobs):
             second["undecided"] = second.get("undecided", 0) + 1
     if second["disagreements"]:
         inconc.append(f"second solver disagrees: {second['disagreements']}")
-    os.makedirs(os.path.join(VERIF, "replays"), exist_ok=True)
-    os.makedirs(os.path.join(VERIF, "evidence"), exist_ok=True)
+    # runs against a scratch copy of the repository (FDTDX_REPO=..., used for mutation drills and seeded changes) must not
+    # overwrite the evidence / replays of /repo itself
+    scratch = os.path.abspath(os.environ.get("FDTDX_REPO", "/repo")) != "/repo"
+    OUT = os.path.join(os.environ.get("VERIF_SCRATCH_OUT", "/tmp/verif_scratch_out"), prop) if scratch else VERIF
+    os.makedirs(os.path.join(OUT, "replays"), exist_ok=True)
+    os.makedirs(os.path.join(OUT, "evidence"), exist_ok=True)
     lines = []
     for i, (v, _) in enumerate(viol):
-        path = os.path.join(VERIF, "replays", f"{prop}-{i}.json")
+        path = os.path.join(OUT, "replays", f"{prop}-{i}.json")
         with open(path, "w") as f:
             json.dump(dict(property=prop, case=v["case"], key=v["key"], obligation=v["obligation"], detail=v["detail"], tier=tier, seed=seed), f, indent=1)
         lines.append(f"VIOLATION property={prop} replay={path}")
@@ -690,7 +694,7 @@ def finish(prop, tier, seed, meta, cases, results, wall, timeout_ms, jobs):
         ),
         assumptions=meta.get("assumptions", []),
     )
-    with open(os.path.join(VERIF, "evidence", f"{prop}.json"), "w") as f:
+    with open(os.path.join(OUT, "evidence", f"{prop}.json"), "w") as f:
         json.dump(jsonable(ev), f, indent=1)
     for l in lines:
         print(l)
